@@ -369,17 +369,47 @@ func r06EverySegmentRouted(c *core.Ctx) {
 		}
 	}
 	c.Check(R, "routed-points-appended-per-level/"+f.Name, vloop.Pos(), okApp, "for each live level: ring[level] = append(ring[level], cleanupNewVertices(result[level], segment, level, …)…)", "the routed points of a segment are not appended to every live level's ring")
-	// the ring used is the normalised one: ring = ensureCorrectWindingOrder(ring, !isOuter), isOuter := ringIdx == 0
+	// the ring used is the normalised one: ring = ensureCorrectWindingOrder(ring, <is a hole>) -- or that helper
+	// written out: if !windingOrderIsCorrect(ring, <is a hole>) { ring = ReverseClone(ring) } -- where <is a hole>
+	// is !isOuter with isOuter := ringIdx == 0 (or ringIdx != 0 directly)
 	okNorm := false
+	isHole := func(e ast.Expr) bool {
+		e = ast.Unparen(e)
+		if u, ok := e.(*ast.UnaryExpr); ok && u.Op == token.NOT {
+			if o := core.ObjOf(outerInfo, u.X); o != nil {
+				if def := singleDef(outerInfo, ringLoop.Body, o); def != nil && canon(def) == outerRingIdx.Name()+"==0" {
+					return true
+				}
+			}
+			return canon(u.X) == outerRingIdx.Name()+"==0"
+		}
+		cs := canon(e)
+		return cs == outerRingIdx.Name()+"!=0" || cs == outerRingIdx.Name()+">0"
+	}
 	for _, s := range ringLoop.Body.List {
-		if as, ok := s.(*ast.AssignStmt); ok && len(as.Lhs) == 1 && len(as.Rhs) == 1 && core.ObjOf(outerInfo, as.Lhs[0]) == outerRing {
-			if call, ok := as.Rhs[0].(*ast.CallExpr); ok && core.IsCallTo(outerInfo, call, "snap.ensureCorrectWindingOrder") && core.ObjOf(outerInfo, call.Args[0]) == outerRing {
-				if u, ok := ast.Unparen(call.Args[1]).(*ast.UnaryExpr); ok && u.Op == token.NOT {
-					if o := core.ObjOf(outerInfo, u.X); o != nil {
-						if def := singleDef(outerInfo, ringLoop.Body, o); def != nil && canon(def) == outerRingIdx.Name()+"==0" {
-							okNorm = as.Pos() < routedAt
-						}
-					}
+		switch st := s.(type) {
+		case *ast.AssignStmt:
+			if len(st.Lhs) == 1 && len(st.Rhs) == 1 && core.ObjOf(outerInfo, st.Lhs[0]) == outerRing {
+				if call, ok := st.Rhs[0].(*ast.CallExpr); ok && core.IsCallTo(outerInfo, call, "snap.ensureCorrectWindingOrder") && core.ObjOf(outerInfo, call.Args[0]) == outerRing && isHole(call.Args[1]) {
+					okNorm = st.Pos() < routedAt
+				}
+			}
+		case *ast.IfStmt:
+			u, ok := ast.Unparen(st.Cond).(*ast.UnaryExpr)
+			if !ok || u.Op != token.NOT || st.Else != nil || st.Init != nil || len(st.Body.List) != 1 {
+				continue
+			}
+			call, ok := ast.Unparen(u.X).(*ast.CallExpr)
+			if !ok || !core.IsCallTo(outerInfo, call, "snap.windingOrderIsCorrect") || len(call.Args) != 2 || core.ObjOf(outerInfo, call.Args[0]) != outerRing || !isHole(call.Args[1]) {
+				continue
+			}
+			as, ok := st.Body.List[0].(*ast.AssignStmt)
+			if !ok || len(as.Lhs) != 1 || len(as.Rhs) != 1 || core.ObjOf(outerInfo, as.Lhs[0]) != outerRing {
+				continue
+			}
+			if rc, ok := as.Rhs[0].(*ast.CallExpr); ok && len(rc.Args) == 1 && core.ObjOf(outerInfo, rc.Args[0]) == outerRing {
+				if cal := core.Callee(outerInfo, rc); cal != nil && cal.Name() == "ReverseClone" {
+					okNorm = st.Pos() < routedAt
 				}
 			}
 		}
@@ -1556,17 +1586,50 @@ func r13WindingOrder(c *core.Ctx) {
 						revWhy = "an iteration can complete without reversing its ring (skip)"
 					}
 					// only under the flag, and always under the flag
+					// the flag: config.ReverseWindingOrder read here, or a bool parameter that every caller fills with it
+					isFlag := func(v ssa.Value) bool {
+						if isFieldRead(v, "ReverseWindingOrder") {
+							return true
+						}
+						prm, ok := v.(*ssa.Parameter)
+						if !ok || !isBoolType(prm.Type()) {
+							return false
+						}
+						pi := -1
+						for k, q := range rfn.Params {
+							if q == prm {
+								pi = k
+							}
+						}
+						sites := callersIndex(c)(rfn)
+						if pi < 0 || len(sites) == 0 {
+							return false
+						}
+						for _, site := range sites {
+							if pi >= len(site.Common().Args) || !isFieldRead(site.Common().Args[pi], "ReverseWindingOrder") {
+								return false
+							}
+						}
+						return true
+					}
 					var flagIf *ssa.If
+					negated := false
 					for _, bb := range rfn.Blocks {
-						if fi := core.BlockIf(bb); fi != nil && (isFieldRead(fi.Cond, "ReverseWindingOrder") || isNotOf(fi.Cond, "ReverseWindingOrder")) {
-							flagIf = fi
+						fi := core.BlockIf(bb)
+						if fi == nil {
+							continue
+						}
+						if isFlag(fi.Cond) {
+							flagIf, negated = fi, false
+						} else if u, ok := fi.Cond.(*ssa.UnOp); ok && u.Op == token.NOT && isFlag(u.X) {
+							flagIf, negated = fi, true
 						}
 					}
 					if flagIf == nil {
 						revWhy += " no test of config.ReverseWindingOrder"
 					} else {
 						onSucc := 0
-						if isNotOf(flagIf.Cond, "ReverseWindingOrder") {
+						if negated {
 							onSucc = 1
 						}
 						without, _ := core.Search{Fn: rfn, Target: instrIs(rcall), Edge: func(bb *ssa.BasicBlock, k int) bool { return !(core.BlockIf(bb) == flagIf && k == onSucc) }}.Run()
@@ -1814,10 +1877,30 @@ func isConstBool(v ssa.Value, want bool) bool {
 // R14: each option is read where it takes effect.
 func r14OptionReads(c *core.Ctx) {
 	const R = "R14"
-	want := map[string][]string{
-		"IgnoreOutsideGrid":   {"snap.SnapPolygon"},
-		"KeepPointsAndLines":  {"snap.addPointsAndSnap", "snap.addPointsAndSnap"},
-		"ReverseWindingOrder": {"snap.reverseWindingOrderIfConfigured"},
+	// the function in which each option acts (its exact effect there is decided by R22, R12 and R13); a read is
+	// accepted in that function, in a package-snap function that calls it directly (passing the flag on)
+	// -- nowhere else, and in particular not outside package snap
+	home := map[string]string{
+		"IgnoreOutsideGrid":   "snap.SnapPolygon",
+		"KeepPointsAndLines":  "snap.addPointsAndSnap",
+		"ReverseWindingOrder": "snap.reverseWindingOrderIfConfigured",
+	}
+	calls := map[string]map[string]bool{} // caller -> callees (static, module)
+	for _, fn := range sortedFuncs(c.P) {
+		info := fn.Pkg.TypesInfo
+		ast.Inspect(fn.Decl.Body, func(n ast.Node) bool {
+			if call, ok := n.(*ast.CallExpr); ok {
+				if cal := core.Callee(info, call); cal != nil {
+					if cf := c.P.ByObj[cal.Origin()]; cf != nil {
+						if calls[fn.Name] == nil {
+							calls[fn.Name] = map[string]bool{}
+						}
+						calls[fn.Name][cf.Name] = true
+					}
+				}
+			}
+			return true
+		})
 	}
 	got := map[string][]string{}
 	for _, fn := range sortedFuncs(c.P) {
@@ -1834,10 +1917,17 @@ func r14OptionReads(c *core.Ctx) {
 			return true
 		})
 	}
-	for field, w := range want {
+	for field, h := range home {
 		g := got[field]
 		sortStrings(g)
-		c.Check(R, "option-read-where-it-acts/snap.Config."+field, token.NoPos, strings.Join(g, ",") == strings.Join(w, ","), "read in "+strings.Join(g, ", "), fmt.Sprintf("snap.Config.%s is read in %v, expected %v: an option now influences another stage", field, g, w))
+		bad := ""
+		for _, where := range g {
+			okSite := where == h || (strings.HasPrefix(where, "snap.") && calls[where][h])
+			if !okSite {
+				bad += where + " "
+			}
+		}
+		c.Check(R, "option-read-where-it-acts/snap.Config."+field, token.NoPos, len(g) >= 1 && bad == "", "read in "+strings.Join(g, ", "), fmt.Sprintf("snap.Config.%s is read in %v; it acts in %s, a read in [%s] lets the option influence another stage (or it is never read)", field, g, h, strings.TrimSpace(bad)))
 	}
 	c.Floor(R, 3)
 }
